@@ -1,10 +1,230 @@
 // Body shared by ungraph and sync_ungraph.
+
 use crate::{guarded, pi64, pu64, pusize, Case};
+use std::cell::{Cell, RefCell};
 
 type N = Node<u64, i64, u64>;
+type Ed = Edge<u64, i64, u64>;
 
-fn fmt_edge(e: &Edge<u64, i64, u64>) -> String {
+fn fmt_edge(e: &Ed) -> String {
     format!("({}>{}:{})", e.source().key(), e.target().key(), e.value())
+}
+
+fn okey(o: Option<N>) -> String {
+    match o {
+        Some(n) => format!("{}", n.key()),
+        None => "-".to_string(),
+    }
+}
+
+fn err_str(e: gdsl::error::Error) -> String {
+    match e {
+        gdsl::error::Error::EdgeAlreadyExists => "err exists".to_string(),
+        gdsl::error::Error::EdgeNotFound => "err notfound".to_string(),
+    }
+}
+
+/// pure edge predicate family shared with the model driver
+#[derive(Clone)]
+enum Pred {
+    All,
+    Salt(u64, u64),
+    Rej(Vec<(u64, u64, u64)>),
+}
+
+impl Pred {
+    fn eval(&self, e: &Ed) -> bool {
+        let (s, t, v) = (*e.source().key(), *e.target().key(), *e.value());
+        match self {
+            Pred::All => true,
+            Pred::Salt(a, m) => (3 * s + 5 * t + 7 * v + a) % m != 0,
+            Pred::Rej(l) => !l.contains(&(s, t, v)),
+        }
+    }
+}
+
+#[derive(PartialEq, Clone, Copy)]
+enum Meth {
+    None,
+    Filter,
+    Each,
+}
+
+struct World {
+    nodes: RefCell<Vec<N>>,
+    /// pending script: (invocation index, step tokens), consumed by the next loop/search
+    script: RefCell<Vec<(usize, Vec<String>)>>,
+}
+
+/// node-channel steps; used at top level and from inside callbacks
+fn exec_node_step(w: &World, st: &[String]) -> Option<String> {
+    let node = |i: &String| w.nodes.borrow()[pusize(i)].clone();
+    Some(match st[0].as_str() {
+        "new" => {
+            let n = Node::new(pu64(&st[1]), pi64(&st[2]));
+            w.nodes.borrow_mut().push(n);
+            "ok".to_string()
+        }
+        "con" => guarded(|| {
+            node(&st[1]).connect(&node(&st[2]), pu64(&st[3]));
+            "ok".to_string()
+        }),
+        "try" => guarded(|| match node(&st[1]).try_connect(&node(&st[2]), pu64(&st[3])) {
+            Ok(()) => "ok".to_string(),
+            Err(e) => err_str(e),
+        }),
+        "dis" => guarded(|| match node(&st[1]).disconnect(&pu64(&st[2])) {
+            Ok(e) => format!("ok {}", e),
+            Err(e) => err_str(e),
+        }),
+        "iso" => guarded(|| {
+            node(&st[1]).isolate();
+            "ok".to_string()
+        }),
+        "qry" => guarded(|| qry(&node(&st[1]), pu64(&st[2]))),
+        "snap" => guarded(|| snap(&w.nodes.borrow().clone())),
+        _ => return None,
+    })
+}
+
+struct CbState<'a> {
+    w: &'a World,
+    pred: Pred,
+    script: Vec<(usize, Vec<String>)>,
+    count: Cell<usize>,
+    trace: RefCell<Vec<String>>,
+    log: RefCell<Vec<String>>,
+}
+
+impl<'a> CbState<'a> {
+    fn new(w: &'a World, pred: Pred) -> Self {
+        let script = std::mem::take(&mut *w.script.borrow_mut());
+        CbState { w, pred, script, count: Cell::new(0), trace: RefCell::new(vec![]), log: RefCell::new(vec![]) }
+    }
+    fn on_edge(&self, e: &Ed) -> bool {
+        self.trace.borrow_mut().push(fmt_edge(e));
+        let k = self.count.get();
+        self.count.set(k + 1);
+        for (i, st) in &self.script {
+            if *i == k {
+                let r = exec_node_step(self.w, st).unwrap_or_else(|| "unknown".to_string());
+                self.log.borrow_mut().push(r.split(' ').take(2).collect::<Vec<_>>().join("_"));
+            }
+        }
+        self.pred.eval(e)
+    }
+    fn tail(&self, show_trace: bool) -> String {
+        let mut s = String::new();
+        if show_trace {
+            s.push_str(" | tr");
+            for t in self.trace.borrow().iter() {
+                s.push_str(t);
+            }
+        }
+        if !self.script.is_empty() {
+            s.push_str(" | log");
+            for l in self.log.borrow().iter() {
+                s.push(' ');
+                s.push_str(l);
+            }
+        }
+        s
+    }
+}
+
+fn parse_method(st: &[String], at: usize) -> (Meth, Pred) {
+    match st.get(at).map(|s| s.as_str()) {
+        Some("each") => (Meth::Each, Pred::All),
+        Some("filt") => (Meth::Filter, Pred::Salt(pu64(&st[at + 1]), pu64(&st[at + 2]))),
+        Some("rej") => {
+            let n = pusize(&st[at + 1]);
+            let mut l = vec![];
+            for i in 0..n {
+                l.push((pu64(&st[at + 2 + 3 * i]), pu64(&st[at + 3 + 3 * i]), pu64(&st[at + 4 + 3 * i])));
+            }
+            (Meth::Filter, Pred::Rej(l))
+        }
+        _ => (Meth::None, Pred::All),
+    }
+}
+
+macro_rules! fmt_path {
+    ($p:expr) => {
+        match $p {
+            None => "r none".to_string(),
+            Some(p) => {
+                let mut s = String::from("r path ");
+                for e in p.iter_edges() {
+                    s.push_str(&fmt_edge(&e));
+                }
+                s.push_str(" nodes");
+                for n in p.to_vec_nodes() {
+                    s.push_str(&format!(" {}", n.key()));
+                }
+                s.push_str(&format!(" len {}", p.len()));
+                s
+            }
+        }
+    };
+}
+
+fn fmt_nodes(v: Vec<N>) -> String {
+    let mut s = String::from("r nodes");
+    for n in v {
+        s.push_str(&format!(" {}", n.key()));
+    }
+    s
+}
+
+fn fmt_edges(v: Vec<Ed>) -> String {
+    let mut s = String::from("r edges ");
+    for e in v {
+        s.push_str(&fmt_edge(&e));
+    }
+    s
+}
+
+macro_rules! with_method {
+    ($b:expr, $meth:expr, $ff:expr, $fe:expr) => {{
+        let b = $b;
+        match $meth {
+            Meth::Filter => b.filter($ff),
+            Meth::Each => b.for_each($fe),
+            Meth::None => b,
+        }
+    }};
+}
+
+pub fn run_case(case: &Case, sink: &mut dyn FnMut(usize, String)) {
+    let w = World { nodes: RefCell::new(Vec::new()), script: RefCell::new(Vec::new()) };
+    for (si, st) in case.steps.iter().enumerate() {
+        let obs = if let Some(o) = exec_node_step(&w, st) {
+            o
+        } else {
+            match st[0].as_str() {
+                "scr" => {
+                    w.script.borrow_mut().push((pusize(&st[1]), st[2..].to_vec()));
+                    "ok".to_string()
+                }
+                "srch" => guarded(|| run_search(&w, st)),
+                "loop" => guarded(|| run_loop(&w, st)),
+                "cmp" => guarded(|| {
+                    let a = w.nodes.borrow()[pusize(&st[1])].clone();
+                    let b = w.nodes.borrow()[pusize(&st[2])].clone();
+                    format!(
+                        "cmp eq={} lt={} le={} cmp={:?} pcmp={:?}",
+                        (a == b) as u8,
+                        (a < b) as u8,
+                        (a <= b) as u8,
+                        a.cmp(&b),
+                        a.partial_cmp(&b)
+                    )
+                }),
+                other => format!("unknown-step {}", other),
+            }
+        };
+        sink(si, obs);
+    }
 }
 
 fn snap(nodes: &[N]) -> String {
@@ -19,49 +239,83 @@ fn snap(nodes: &[N]) -> String {
     s
 }
 
-fn okey(o: Option<N>) -> String {
-    match o {
-        Some(n) => format!("{}", n.key()),
-        None => "-".to_string(),
-    }
+fn qry(n: &N, k: u64) -> String {
+    format!("q conn={} fa={}", n.is_connected(&k) as u8, okey(n.find_adjacent(&k)))
 }
 
-pub fn run_case(case: &Case, sink: &mut dyn FnMut(usize, String)) {
-    let mut nodes: Vec<N> = Vec::new();
-    for (si, st) in case.steps.iter().enumerate() {
-        let obs = match st[0].as_str() {
-            "new" => {
-                nodes.push(Node::new(pu64(&st[1]), pi64(&st[2])));
-                "ok".to_string()
+fn run_loop(w: &World, st: &[String]) -> String {
+    let u = w.nodes.borrow()[pusize(&st[2])].clone();
+    let cbs = CbState::new(w, Pred::All);
+    match st[1].as_str() {
+        "adj" => {
+            for e in u.iter() {
+                cbs.on_edge(&e);
             }
-            "con" => guarded(|| {
-                nodes[pusize(&st[1])].connect(&nodes[pusize(&st[2])], pu64(&st[3]));
-                "ok".to_string()
-            }),
-            "try" => guarded(|| {
-                match nodes[pusize(&st[1])].try_connect(&nodes[pusize(&st[2])], pu64(&st[3])) {
-                    Ok(()) => "ok".to_string(),
-                    Err(gdsl::error::Error::EdgeAlreadyExists) => "err exists".to_string(),
-                    Err(gdsl::error::Error::EdgeNotFound) => "err notfound".to_string(),
-                }
-            }),
-            "dis" => guarded(|| match nodes[pusize(&st[1])].disconnect(&pu64(&st[2])) {
-                Ok(e) => format!("ok {}", e),
-                Err(gdsl::error::Error::EdgeNotFound) => "err notfound".to_string(),
-                Err(gdsl::error::Error::EdgeAlreadyExists) => "err exists".to_string(),
-            }),
-            "iso" => guarded(|| {
-                nodes[pusize(&st[1])].isolate();
-                "ok".to_string()
-            }),
-            "qry" => guarded(|| {
-                let n = &nodes[pusize(&st[1])];
-                let k = pu64(&st[2]);
-                format!("q conn={} fa={}", n.is_connected(&k) as u8, okey(n.find_adjacent(&k)))
-            }),
-            "snap" => guarded(|| snap(&nodes)),
-            other => format!("unknown-step {}", other),
-        };
-        sink(si, obs);
+        }
+        _ => {
+            for e in &u {
+                cbs.on_edge(&e);
+            }
+        }
     }
+    format!("r loop{}", cbs.tail(true))
+}
+
+// srch <algo> <what> <root> <transpose(ignored)> <target|-> [method...]
+fn run_search(w: &World, st: &[String]) -> String {
+    let algo = st[1].as_str();
+    let what = st[2].as_str();
+    let root = w.nodes.borrow()[pusize(&st[3])].clone();
+    let target: Option<u64> = if st[5] == "-" { None } else { Some(pu64(&st[5])) };
+    let (meth, pred) = parse_method(st, 6);
+    let cbs = CbState::new(w, pred);
+    let mut ff = |e: &Ed| cbs.on_edge(e);
+    let mut fe = |e: &Ed| {
+        cbs.on_edge(e);
+    };
+    macro_rules! terminal {
+        ($b:expr) => {{
+            let mut b = $b;
+            match what {
+                "find" => match b.search() {
+                    Some(n) => format!("r node {}", n.key()),
+                    None => "r none".to_string(),
+                },
+                "path" => fmt_path!(b.search_path()),
+                "cycle" => fmt_path!(b.search_cycle()),
+                _ => "bad-what".to_string(),
+            }
+        }};
+    }
+    macro_rules! cfg3 {
+        ($b:expr) => {{
+            let mut b = $b;
+            if let Some(ref t) = target {
+                b = b.target(t);
+            }
+            let b = with_method!(b, meth, &mut ff, &mut fe);
+            terminal!(b)
+        }};
+    }
+    macro_rules! ord {
+        ($b:expr) => {{
+            let b = $b;
+            let mut b = with_method!(b, meth, &mut ff, &mut fe);
+            match what {
+                "nodes" => fmt_nodes(b.search_nodes()),
+                "edges" => fmt_edges(b.search_edges()),
+                _ => "bad-what".to_string(),
+            }
+        }};
+    }
+    let res = match algo {
+        "bfs" => cfg3!(root.bfs()),
+        "dfs" => cfg3!(root.dfs()),
+        "pmin" => cfg3!(root.pfs().min()),
+        "pmax" => cfg3!(root.pfs().max()),
+        "pre" => ord!(root.order().pre()),
+        "post" => ord!(root.order().post()),
+        _ => "bad-algo".to_string(),
+    };
+    format!("{}{}", res, cbs.tail(meth != Meth::None))
 }
